@@ -11,7 +11,7 @@ from sim import core, gq
 from sim.core import Ctx, stream
 
 ID = "C12"
-RUNS = {"quick": 2400, "thorough": 60000}
+RUNS = {"quick": 5000, "thorough": 100000}
 BUDGET = {"quick": 60, "thorough": 900}
 CHUNK = {"quick": 50, "thorough": 200}
 RULE = (
